@@ -85,7 +85,12 @@ impl PatchHeader {
 
     /// The `Reviewed-By` field.
     pub fn reviewed_by(&self) -> Vec<String> {
-        self.0.get_all("Reviewed-By").collect()
+        // DEP-3 spells the field "Reviewed-by"
+        self.0
+            .items()
+            .filter(|(k, _)| k == "Reviewed-by" || k == "Reviewed-By")
+            .map(|(_, v)| v)
+            .collect()
     }
 
     /// Get the last update date of the patch.
